@@ -14,7 +14,7 @@ Definition G2 (w : world) : Prop := G2a w /\ ne_ready w = true.
 
 Definition keeps2 (f : world -> world) : Prop := forall X w, GP X w -> G2 w -> G2 (f w).
 
-Lemma same_G2 w w' : same w w' -> G2 w -> G2 w'.
+Lemma same_G2 {b} w w' : sameb b w w' -> G2 w -> G2 w'.
 Proof.
   intros Hs [H Hn]. split; [|rewrite (sm_ne _ _ Hs); exact Hn].
   intros tid st a k. rewrite (same_tided _ _ Hs), (sm_can _ _ Hs), (sm_store _ _ Hs). apply H.
@@ -289,7 +289,7 @@ Lemma kk_neutral f : neutral f -> kk f.
 Proof. intros H. apply kk_of; [apply neutral_keeps; exact H|apply neutral_keeps2; exact H]. Qed.
 Lemma kk_fold {Y} (f : world -> Y -> world) l : (forall x, kk (fun w => f w x)) -> kk (fun w => fold_left f l w).
 Proof. intros H. induction l as [|x l IH]; intros X w Hg; cbn [fold_left]; [exact Hg|]. apply IH. apply (H x). exact Hg. Qed.
-Lemma GG_same X w w' : same w w' -> GG X w -> GG X w'.
+Lemma GG_same {b} X w w' : sameb b w w' -> GG X w -> GG X w'.
 Proof. intros Hs [A B]. split; [eapply same_G; eauto|eapply same_G2; eauto]. Qed.
 
 (* a world that differs only in parts neither invariant reads, or only by new non-expiry handles *)
